@@ -32,6 +32,9 @@ structure Msg where
   bundle : Nat := 0
   /-- auth messages: the action is Promote / Demote -/
   unsupported : Bool := false
+  /-- membership messages: `auth_message_id` points at a stored auth message whose action is Promote / Demote
+      (the lookup in `handle_space_membership_message` accepts supported auth actions only) -/
+  pointsAtUnsupported : Bool := false
 deriving DecidableEq, Repr
 
 /-- What the inner handler does when it is really invoked. -/
@@ -84,6 +87,7 @@ def rejected (m : Msg) : Bool :=
   match m.kind with
   | .spaceUpdate => true
   | .auth => m.unsupported
+  | .membership => m.pointsAtUnsupported
   | _ => false
 
 /-- `Manager::process` (+ persist), repaired code. -/
